@@ -30,7 +30,8 @@ EXTENDS MetaGram, SequencesExt
 CONSTANTS MaxLen                \* sentences have at most MaxLen words
 
 \* ---- the word alphabet and what the terminals of the generated grammars match
-Words == {"p", "q", "qq", "k", "r", "rr"}
+\* "qk" begins like a match of /q+/ but is none; "p", "k" are string terminals (keywords) of the generated grammars
+Words == {"p", "q", "qq", "k", "r", "rr", "qk"}
 RegexLang(e) == CASE e = "q+" -> {"q", "qq"} [] e = "r+" -> {"r", "rr"} [] OTHER -> {}
 Sentences == UNION {[1..n -> Words] : n \in 0..MaxLen}
 
@@ -171,8 +172,8 @@ IncompleteWitnesses == {[g |-> Src(x), s |-> s] : <<x, s>> \in {<<y, t>> \in Exp
 SpinWitnesses == {[g |-> Src(x), s |-> s] : <<x, s>> \in {<<y, t>> \in Exprs \X Sentences : ParseS(RuleSet(M(y), "off"), t).v = "spin"}}
 
 SentSeq == SetToSeq(Sentences)
-ResultOf(m, u, s) == LET R == ParseS(RuleSet(m, u), s) IN [s |-> s, v |-> R.v, tree |-> IF R.v = "accept" THEN R.tree ELSE <<>>]
-EmitEngine == \A x \in Exprs : \A ui \in 1..3 :
+ResultOf(m, u, s, L) == LET R == ParseS(RuleSet(m, u), s) IN [s |-> s, v |-> R.v, tree |-> IF R.v = "accept" THEN R.tree ELSE <<>>, inlang |-> s \in L]
+EmitEngine == \A x \in Exprs : LET L == Lang(RuleSet(M(x), "off"), M(x)) IN \A ui \in 1..3 :
    PrintT("ENGINE " \o ToJson([src |-> Src(x), unwrap |-> UnwrapOf[ui], model |-> M(x),
-                               results |-> [i \in DOMAIN SentSeq |-> ResultOf(M(x), UnwrapOf[ui], SentSeq[i])]]))
+                               results |-> [i \in DOMAIN SentSeq |-> ResultOf(M(x), UnwrapOf[ui], SentSeq[i], L)]]))
 =============================================================================
